@@ -161,17 +161,25 @@ def run_case(case):
     CobaContext.logger = NullLogger()
     try:
         learner = Scripted(case)
-        safe = SafeLearner(learner) if case.get("seed") is None else SafeLearner(learner, case["seed"])
+        safe0 = SafeLearner(learner) if case.get("seed") is None else SafeLearner(learner, case["seed"])
+        rw_ = case.get("rewrap")
+        safes, batches = [safe0], [bool(case.get("batch"))]
+        if rw_:
+            # SafeLearner(SafeLearner(learner), seed2): a wrapper of its own around the same learner
+            safes.append(SafeLearner(safe0) if rw_.get("seed2") is None else SafeLearner(safe0, rw_["seed2"]))
+            batches.append(bool(rw_.get("batch2")))
         recs = []
         for ci, call in enumerate(case["calls"]):
+            w = int(rw_["who"][ci]) if rw_ else 0
+            safe = safes[w]
             ctxs = [dec(r["ctx"]) for r in call]
             acts = [[dec(a) for a in r["actions"]] for r in call]
-            if case.get("batch"):
+            if batches[w]:
                 ctx, act = Batch.List(ctxs), Batch.List(acts)
                 rwd = Batch.List([0.25 * (i + 1) for i in range(len(call))])
             else:
                 ctx, act, rwd = ctxs[0], acts[0], 0.25
-            rec = {"ctx": ctx, "actions": act, "np0": len(learner.predict_calls), "nl0": len(learner.learn_calls)}
+            rec = {"ctx": ctx, "actions": act, "np0": len(learner.predict_calls), "nl0": len(learner.learn_calls), "w": w}
             recs.append(rec)
             try:
                 out = safe.predict(ctx, act)
@@ -193,7 +201,7 @@ def run_case(case):
             rec["rwd"] = rwd
             # SafeLearner.score for an action of every row: the named one on even calls, its neighbour on odd calls
             picks = [acts[i][(r["pick"] + ci) % len(acts[i])] for i, r in enumerate(call)]
-            sact = Batch.List(picks) if case.get("batch") else picks[0]
+            sact = Batch.List(picks) if batches[w] else picks[0]
             rec["score_arg"] = sact
             try:
                 rec["score"] = safe.score(ctx, act, sact)
@@ -744,6 +752,27 @@ def gen_case(rng, stress=0.3):
     return case
 
 
+def gen_rewrap(rng):
+    """SafeLearner(SafeLearner(learner), seed2): two wrappers of one learner, their calls interleaved; each wrapper is used batched
+    or unbatched on its own (an unbatched wrapper is given one-row calls)"""
+    case = gen_case(rng)
+    if rng.chance(0.5):
+        case["fmt"] = rng.choice(["PM", "dPM"])          # draws must come from each wrapper's own seed and own call count
+    case.pop("e2e", None)
+    calls = case["calls"]
+    while len(calls) < rng.choice([2, 3, 4]):
+        calls.append(json.loads(json.dumps(calls[rng.below(len(calls))])))
+    who = [rng.below(2) for _ in calls]
+    if len(set(who)) == 1:
+        who[rng.below(len(who))] ^= 1
+    batch2 = rng.chance(0.5)
+    for i, w in enumerate(who):
+        if not (batch2 if w else case["batch"]):
+            calls[i] = calls[i][:1]
+    case["rewrap"] = {"who": who, "batch2": batch2, "seed2": rng.wchoice([(1, None), (3, rng.randint(0, 50)), (1, rng.randint(-2 ** 31, 2 ** 40))])}
+    return case
+
+
 def equal_twin(a):
     k, x = kind_of(a)
     if k == "i" and x in (0, 1):
@@ -842,6 +871,7 @@ class C15(Property):
             "the quantifier (copies/aliases of offered objects, malformed PMFs, hint-named features) and are checked by (A) only. "
             "after every predict/learn the same SafeLearner is asked score(context, actions, action) for the named action (even calls) or its neighbour (odd calls); "
             "kwargs key order differs between rows in 25% of kwargs cases; in 30% of batched cases learn / score take batches independently of predict; "
+            "12% of cases are SafeLearner(SafeLearner(L), seed2) histories (two wrappers of one learner, calls interleaved, each batched or unbatched on its own); "
             "string action sets with prefixes of each other (compass points); 20% of PMFs sum to 1 +- d/65536 with d spread over the documented tolerance .001; "
             "non-trivial = in-quantifier case for which the real code returned a result for every call, with >= 2 rows overall or a PMF draw; "
             "distinct by canonical JSON of the case")
@@ -854,7 +884,7 @@ class C15(Property):
         "which of the four proposed repairs the code under test contains is decided by four behavioural probes (variant()); the Lean model has the same four switches (Fixes)",
     ]
     assumptions = ["the learner is a function of (context, actions): the same row is answered the same way in batch, per-row and probe calls",
-                   "a SafeLearner is used either always batched or never (as an evaluator does)",
+                   "a SafeLearner is used either always batched or never (as an evaluator does); two wrappers of one learner may differ in that",
                    "kwargs of the rows of one batch have the same key set, in any order; kwargs keys are not named action/action_prob/pmf",
                    "the kwargs payload is any abc.Mapping (dict, OrderedDict/defaultdict/dict subclasses, MappingProxyType, a plain Mapping class, ChainMap); "
                    "the model's dict stands for Mapping; a non-dict Mapping after a column-major hinted answer is finding C15-F5 ((A) there only once fixes/C15-colhint-kwargs-mapping.diff is in)",
@@ -869,19 +899,78 @@ class C15(Property):
     def generate(self, rng, tier):
         if rng.chance(0.15):
             return gen_ambiguous(rng)
+        if rng.chance(0.12):
+            return gen_rewrap(rng)
         return gen_case(rng)
 
     def search(self, rng, tier):
         # in-quantifier learners only ((B) is the only check the search runs), biased to the identity-sensitive combinations
-        return gen_case(rng, stress=0.6)
+        return gen_rewrap(rng) if rng.chance(0.15) else gen_case(rng, stress=0.6)
 
     def corpus(self):
         return corpus_cases()
 
     # ---- evaluation
     def evaluate(self, case, driver):
-        fails, tags = [], []
         learner, recs = run_case(case)
+        rw = case.get("rewrap")
+        if not rw:
+            return self.evaluate_one(case, learner, recs, driver)
+        # two wrappers: each must behave as a fresh SafeLearner(learner, own seed) does on its own calls
+        outs, fails, tags = [], [], ["rewrap:%s/%s" % ("batched" if case.get("batch") else "unbatched", "batched" if rw.get("batch2") else "unbatched")]
+        for w in (0, 1):
+            idx = [i for i, x in enumerate(rw["who"]) if int(x) == w]
+            sub = {k: v for k, v in case.items() if k not in ("rewrap", "e2e")}
+            sub["calls"] = [case["calls"][i] for i in idx]
+            if w == 1:
+                sub["seed"], sub["batch"] = rw.get("seed2"), bool(rw.get("batch2"))
+            rs = [r for r in recs if r["w"] == w]
+            if not sub["calls"] or not rs:
+                continue
+            o = self.evaluate_one(sub, learner, rs, driver)
+            for f in o["fails"]:
+                fails.append(F(f["kind"], "%s wrapper of SafeLearner(SafeLearner(L), seed2=%s) [calls %s]: %s" % (
+                    "outer" if w else "inner", rw.get("seed2"), idx, f["what"]), "rewrap:" + f["sig"]))
+            tags += [t for t in o["tags"] if t.startswith(("quant", "hyp", "histOK"))]
+            outs.append(o)
+        if driver is not None and not fails:
+            self.correspond_two(driver, case, learner, recs, fails)
+        return {"fails": fails, "nontrivial": bool(outs) and all(o["nontrivial"] for o in outs), "tags": tags,
+                "impl": [o.get("impl") for o in outs], "model": None}
+
+    def correspond_two(self, driver, case, learner, recs, fails):
+        """(A) for runTwo: the interleaved run of both wrappers on the learner's actual answers"""
+        rw = case["rewrap"]
+        refs = Refs()
+        try:
+            calls, recorded = [], []
+            for rec in recs:
+                refs.ext(rec["ctx"])
+                refs.ext(rec["actions"])
+                b = bool(rw.get("batch2")) if rec["w"] else bool(case.get("batch"))
+                calls.append(refs.arg(b, rec["ctx"], rec["actions"]))
+            for rec in recs:
+                bw = bool(rw.get("batch2")) if rec["w"] else bool(case.get("batch"))
+                k = 0
+                for (b, c, a), ans in zip(learner.predict_calls[rec["np0"]:rec["np1"]], learner.answers[rec["np0"]:rec["np1"]]):
+                    e = {"arg": refs.arg(b, c, a, received=True, row=k)}
+                    if bw and not b:
+                        k += 1
+                    if isinstance(ans, BaseException):
+                        e["exc"] = 1
+                    else:
+                        e["resp"] = refs.enc(ans)
+                    recorded.append(e)
+        except Unencodable:
+            return
+        ans = driver.ask({"fx": variant(), "seed": 1 if case.get("seed") is None else case["seed"], "seed2": 1 if rw.get("seed2") is None else rw["seed2"],
+                          "who": [bool(int(r["w"])) for r in recs], "calls": calls, "recorded": recorded})
+        d = outcomes_differ(outcome_impl(recs), outcome_model(ans["two"]))
+        if d:
+            fails.append(F("A", "two wrappers of one learner, calls interleaved %s: real results differ from the model's runTwo: %s" % (rw["who"], d), "A:rewrap"))
+
+    def evaluate_one(self, case, learner, recs, driver):
+        fails, tags = [], []
         fmt, layout, batch = case["fmt"], case["layout"], bool(case.get("batch"))
         name = "%s/%s%s" % (("not" if not batch else layout), fmt, "+kw" if case.get("kw") else "")
         inq, why = in_quantifier(case)
@@ -931,11 +1020,13 @@ class C15(Property):
                 refs.ext(rec["ctx"])
                 refs.ext(rec["actions"])
                 calls.append(refs.arg(bool(case.get("batch")), rec["ctx"], rec["actions"]))
-            recorded = []
+            recorded, per_rec = [], []
             for rec in recs:
                 k = 0
+                per_rec.append([])
                 for (b, c, a), ans in zip(learner.predict_calls[rec["np0"]:rec["np1"]], learner.answers[rec["np0"]:rec["np1"]]):
                     e = {"arg": refs.arg(b, c, a, received=True, row=k)}
+                    per_rec[-1].append(e)
                     if case.get("batch") and not b:
                         k += 1
                     if isinstance(ans, BaseException):
@@ -981,7 +1072,7 @@ class C15(Property):
         real_trace = []
         k = 0
         for rec in recs:
-            real_trace.append([trace_by_value(e["arg"]) for e in recorded[rec["np0"]:rec["np1"]]])
+            real_trace.append([trace_by_value(e["arg"]) for e in per_rec[len(real_trace)]])
         mtrace = [[[bool(a["batch"]), [[r["ctx"], r["actions"]] for r in a["rows"]]] for a in t] for t in ans["recorded_trace"]]
         if real_trace[:len(mtrace)] != mtrace[:len(real_trace)] and not d:
             fails.append(F("A", "%s: the calls SafeLearner made to the learner differ from the model: real %s, model %s" % (
@@ -1087,6 +1178,12 @@ class C15(Property):
                     yield dict(case, calls=calls[:k] + [call[:i] + [dict(r, ctx={"i": i})] + call[i + 1:]] + calls[k + 1:])
         if case.get("seed") not in (None, 1):
             yield dict(case, seed=1)
+        if case.get("rewrap"):
+            rw = case["rewrap"]
+            for k in range(len(calls)):
+                if len(calls) > 1:
+                    yield dict(case, calls=calls[:k] + calls[k + 1:], rewrap=dict(rw, who=rw["who"][:k] + rw["who"][k + 1:]))
+            return
         if case.get("kwmap") not in (None, "dict"):
             yield dict(case, kwmap="dict")
         if case.get("wrap") == "list":
@@ -1168,6 +1265,18 @@ def corpus_cases():
                             for i in range(n)]
                     cs.append({"seed": 3, "fmt": "PM", "kw": kw, "layout": "single" if mode == "not" else mode, "batch": mode != "not",
                                "calls": [rows, rows[:1]]})
+    # re-wrapped SafeLearners: a learner that cannot batch seen unbatched through one wrapper and batched through the other
+    # (both orders), and PMF draws from two seeds interleaved
+    for fmt in ("A", "AP", "PM", "dPM"):
+        for layout in ("single", "row", "col"):
+            for b0, b2 in ((False, True), (True, False), (True, True), (False, False)):
+                for who in ([0, 1], [1, 0], [0, 1, 0, 1], [1, 1, 0, 0]):
+                    calls = []
+                    for ci, w in enumerate(who):
+                        n = 2 if (b2 if w else b0) else 1
+                        calls.append([row(sets["str"], (ci + i) % 3, 10 * ci + i, pmf=[{"f": [1, 4]}, {"f": [1, 2]}, {"f": [1, 4]}]) for i in range(n)])
+                    cs.append({"seed": 5, "fmt": fmt, "kw": True, "layout": layout, "batch": b0, "calls": calls,
+                               "rewrap": {"who": who, "batch2": b2, "seed2": 9}})
     seen, out = set(), []
     for c in cs:
         k = json.dumps(c, sort_keys=True)
